@@ -111,9 +111,17 @@ class Scene(Geometry3D):
           Homogeneous transformation matrix.
         """
         base = self.graph.base_frame
+        edges = self.graph.transforms.edge_data
         for child in self.graph.transforms.children[base]:
             combined = np.dot(transform, self.graph[child][0])
-            self.graph.update(frame_from=base, frame_to=child, matrix=combined)
+            # only the matrix changes: keep what else is stored
+            # on the edge (geometry name, node metadata)
+            keep = {
+                k: v
+                for k, v in edges.get((base, child), {}).items()
+                if k in ("geometry", "metadata")
+            }
+            self.graph.update(frame_from=base, frame_to=child, matrix=combined, **keep)
         return self
 
     def add_geometry(
